@@ -69,18 +69,22 @@ template <class It> static std::string join(const char* head, It b, It e) {
   std::ostringstream o; o << head; for (; b != e; ++b) o << " " << *b; return o.str();
 }
 
-static int run_array(ygm::comm& world, int argc, char** argv) {
+typedef std::vector<std::string> args_t;   // a scenario: mode followed by its arguments
+
+static int run_array(ygm::comm& world, const args_t& argv) {
   typedef ygm::container::array<u64> arr_t;
-  size_t len = U(argv[2]); u64 dv = U(argv[3]);
+  size_t len = U(argv[1]); u64 dv = U(argv[2]);
   std::unique_ptr<arr_t> a[2];
   a[0].reset(new arr_t(world, len, dv));
   int cur = 0; int me = world.rank();
-  for (auto& f : parse(argv[4])) {
+  for (auto& f : parse(argv[3].c_str())) {
     char c = f[0][0];
     arr_t& t = *a[cur];
     if (c == 'B') { world.barrier(); continue; }
     if (c == 'T') { cur = (int)U(f[1]); continue; }
     if (c == 'C') { a[1].reset(new arr_t(*a[0])); world.barrier(); continue; }
+    // a second, independent array of the same type (other length / default) alive next to array #0
+    if (c == 'N') { a[1].reset(new arr_t(world, U(f[1]), U(f[2]))); world.barrier(); continue; }
     if (c == 'F') {
       std::ostringstream o; o << "forall";
       t.for_all([&o](const size_t idx, u64& v) { o << " " << idx << ":" << v; });
@@ -160,12 +164,12 @@ static int run_array(ygm::comm& world, int argc, char** argv) {
   return 0;
 }
 
-static int run_bag(ygm::comm& world, int argc, char** argv) {
+static int run_bag(ygm::comm& world, const args_t& argv) {
   typedef ygm::container::bag<u64> bag_t;
   bag_t b0(world), b1(world);
   bag_t* bags[2] = {&b0, &b1};
   int cur = 0; int me = world.rank();
-  for (auto& f : parse(argv[2])) {
+  for (auto& f : parse(argv[1].c_str())) {
     char c = f[0][0];
     bag_t& t = *bags[cur];
     switch (c) {
@@ -206,13 +210,13 @@ static int run_bag(ygm::comm& world, int argc, char** argv) {
   return 0;
 }
 
-static int run_tbag(ygm::comm& world, int argc, char** argv) {
+static int run_tbag(ygm::comm& world, const args_t& argv) {
   typedef ygm::container::tagged_bag<u64> tb_t;
   tb_t tb0(world), tb1(world);
   tb_t* tbs[2] = {&tb0, &tb1};
   int cur = 0;
   int me = world.rank();
-  for (auto& f : parse(argv[2])) {
+  for (auto& f : parse(argv[1].c_str())) {
     char c = f[0][0];
     tb_t& tb = *tbs[cur];
     switch (c) {
@@ -247,13 +251,60 @@ static int run_tbag(ygm::comm& world, int argc, char** argv) {
   return 0;
 }
 
-extern "C" int sim_main(int argc, char** argv) {
-  ygm::comm world(MPI_COMM_WORLD);
-  hc::open_out(world.rank());
-  std::string mode = argc > 1 ? argv[1] : "";
-  if (mode == "array") return run_array(world, argc, argv);
-  if (mode == "bag") return run_bag(world, argc, argv);
-  if (mode == "tbag") return run_tbag(world, argc, argv);
+static int run_scenario(ygm::comm& c, const args_t& a) {
+  if (a.empty()) return 0;
+  if (a[0] == "array") return run_array(c, a);
+  if (a[0] == "bag") return run_bag(c, a);
+  if (a[0] == "tbag") return run_tbag(c, a);
   hc::out("bad-mode");
   return 1;
+}
+
+static args_t split_bar(const char* s) {
+  args_t v; std::stringstream ss(s); std::string t;
+  while (std::getline(ss, t, '|')) v.push_back(t);
+  return v;
+}
+
+// argv:  <mode> <args...>                                  the scenario on the world communicator (as before)
+//   or:  sub <split> <order> <k> <size> <scen> ... <world-scen>   (scen = mode|arg|arg...)
+//        the SAME scenario code (same container / lambda types) additionally runs on a sub-communicator of another size,
+//        built with MPI_Comm_split (split = parity: colour = world rank % 2; droplast: rank < n-1 versus the last rank;
+//        bynode:<ppn>: colour = parity of the node id),
+//        before (order = sub-first) or after (world-first) the world run, in the same process.  Each group runs the scenario
+//        listed for its size.  Sections of the output are introduced by `@sub colour subrank subsize` / `@world`.
+extern "C" int sim_main(int argc, char** argv) {
+  int wr = 0, wn = 1;
+  MPI_Comm_rank(MPI_COMM_WORLD, &wr); MPI_Comm_size(MPI_COMM_WORLD, &wn);
+  hc::open_out(wr);
+  std::string first = argc > 1 ? argv[1] : "";
+  if (first != "sub") {
+    args_t a; for (int i = 1; i < argc; ++i) a.push_back(argv[i]);
+    ygm::comm world(MPI_COMM_WORLD);
+    return run_scenario(world, a);
+  }
+  std::string split = argv[2], order = argv[3];
+  int k = atoi(argv[4]);
+  std::vector<std::pair<int, args_t>> subs;
+  for (int i = 0; i < k; ++i) subs.push_back({atoi(argv[5 + 2 * i]), split_bar(argv[6 + 2 * i])});
+  args_t wscen = split_bar(argv[5 + 2 * k]);
+  int rc = 0;
+  auto do_world = [&]() {
+    ygm::comm world(MPI_COMM_WORLD);
+    hc::out("@world");
+    rc |= run_scenario(world, wscen);
+  };
+  auto do_sub = [&]() {
+    int colour = split == "parity" ? wr % 2 : split.rfind("bynode:", 0) == 0 ? (wr / atoi(split.c_str() + 7)) % 2 : (wr < wn - 1 ? 0 : 1);
+    MPI_Comm subc;
+    MPI_Comm_split(MPI_COMM_WORLD, colour, wr, &subc);
+    {
+      ygm::comm sub(subc);
+      hc::out("@sub " + std::to_string(colour) + " " + std::to_string(sub.rank()) + " " + std::to_string(sub.size()));
+      for (auto& p : subs) if (p.first == sub.size()) { rc |= run_scenario(sub, p.second); break; }
+    }
+    MPI_Comm_free(&subc);
+  };
+  if (order == "sub-first") { do_sub(); do_world(); } else { do_world(); do_sub(); }
+  return rc;
 }
